@@ -46,6 +46,39 @@ def is_join(c):
     return c['path'] == 'rayon::join' or c['path'].endswith('rayon_core::join::join') or c['path'] == 'rayon_core::join'
 
 
+def flags_param(body):
+    """Local of the parameter that carries the per-task flags of a Stage method: by its name in the reference tree,
+    else the one parameter typed `(bool, ..)` (possibly behind `&mut`)."""
+    if body.arg_local('has_run'):
+        return body.arg_local('has_run')
+    c = []
+    for i in range(2, body.argc + 1):
+        t = body.local_ty(i)
+        if t.get('k') == 'ref':
+            t = t.get('t') or {}
+        if t.get('k') == 'tuple' and t.get('e') and t['e'][0].get('name') == 'bool':
+            c.append(i)
+    return c[0] if len(c) == 1 else None
+
+
+def ran_value(prog, imp):
+    """Which value of a task's flag means "this task already ran": the opposite of what the stage's constructor of
+    initial flags (the zero-argument method returning `(const bool, <tail flags>)`) puts there. 1 on the reference
+    tree (`has_run`); 0 if the flags are kept the other way round (`pending`)."""
+    for g in prog.impl_methods(imp):
+        if (g.d.get('inputs') or []) or g.kind != 'AssocFn':
+            continue
+        E = pathsem.analyse(prog, g)
+        rets = [p for p in E.paths if p.ended == 'return']
+        if len(rets) == 1 and not E.truncated:
+            v = rets[0].ret
+            if isinstance(v, tuple) and v[0] == 'agg' and v[1] == 'tuple' and len(v[4]) == 2:
+                c0 = {pathsem.TRUE: 1, pathsem.FALSE: 0, ('c', 1): 1, ('c', 0): 0}.get(v[4][0])
+                if c0 is not None:
+                    return 1 - c0
+    return 1
+
+
 def stage_helper(prog):
     """-> predicate on Fn: the free helper functions of the Stage module. The stage rules read Stage::run* with
     these walked inline, so that what is decided does not depend on which side of the call a step is written."""
@@ -139,7 +172,10 @@ def s1_exactly_once(prog):
     S = pathsem.strip_refs
     body = f.body
     P = {n: ('p', body.arg_local(n), n) for n in ('world', 'borrowed_archetypes', 'resource_claims', 'has_run', 'next_stage') if body.arg_local(n)}
+    if 'has_run' not in P and flags_param(body):
+        P['has_run'] = ('p', flags_param(body), body.local_name(flags_param(body)) or '')
     hr0, hr1 = ('f', P.get('has_run'), 0, 'tuple'), ('f', P.get('has_run'), 1, 'tuple')
+    RAN = ran_value(prog, imp)      # the flag value that says "already ran" (the reverse of the initial flags)
 
     def is_tail_run(e):
         return e['f'].get('trait') == STAGE_T and e['name'] == 'run'
@@ -152,7 +188,7 @@ def s1_exactly_once(prog):
         if not tests:
             once('S1', 'no-has-run-test', None, 'Stage::run does not branch on has_run.0: a task started early would run twice')
             continue
-        if tests[0] is True:
+        if bool(tests[0]) == bool(RAN):
             n_skip += 1
             if joins or truns:
                 once('S1', 'runs-again', (joins + truns)[0]['ln'], 'task is run (or forked) on the path where has_run.0 is true')
@@ -282,8 +318,10 @@ def s2_flag_iff_ran(prog):
     p_out = None
     for i in range(1, body.argc + 1):
         t_ = body.local_ty(i)
-        if t_.get('k') == 'ref' and t_.get('mut') and i not in (1,) and (body.local_name(i) or '').endswith('has_run'):
+        if t_.get('k') == 'ref' and t_.get('mut') and i not in (1,) and ((body.local_name(i) or '').endswith('has_run') or i == flags_param(body)):
             p_out = i
+    RAN = ran_value(prog, imp)
+    c_ran, c_not = ('c', RAN), ('c', 1 - RAN)
     n_run = 0
     for p in rets:
         joins = p.calls(ev_is_join)
@@ -309,9 +347,9 @@ def s2_flag_iff_ran(prog):
             once('S2', 'task-run-count', joins[0]['ln'], 'the fork must run the task exactly once')
         if flag not in (('c', 0), ('c', 1)):
             once('S2', 'flag-missing', None, 'cannot see the has-run flag returned by a path (%s)' % pathsem.tstr(ret))
-        elif runs and flag == ('c', 0):
+        elif runs and flag == c_not:
             once('S2', 'flag-false-on-run', runs[0]['ln'], 'a path that ran the task reports it as not run: the task would run twice')
-        elif not runs and flag == ('c', 1):
+        elif not runs and flag == c_ran:
             once('S2', 'flag-true-without-run', None, 'a path that does not run the task reports it as run: the task would be skipped in its own stage')
         if len(tails) != 1:
             once('S2', 'tail-skippable' if not tails else 'rest-tail', None, 'every path must offer the remaining tasks of the next stage to the tail\'s run_add_ons exactly once (found %d)' % len(tails))
@@ -637,6 +675,8 @@ def s5_stage_sequencing(prog):
     if E.truncated or not rets:
         once(key + '/shape', None, 'Stages::run not analysable')
     hr = ('p', f.body.arg_local('has_run'), 'has_run') if f.body.arg_local('has_run') else None
+    if hr is None and f.body.argc == 3:
+        hr = ('p', 3, f.body.local_name(3) or '')      # (self, world, flags)
     for p in rets:
         st = p.calls(lambda e: e['f'].get('trait') == STAGE_T and e['name'] == 'run')
         nx = p.calls(lambda e: e['f'].get('trait') == STAGES_T and e['name'] == 'run')
@@ -674,7 +714,10 @@ def s5_stage_sequencing(prog):
             once('run_schedule/shape', None, 'run_schedule must run the stages exactly once', fn=g)
             continue
         v = S(runs[0]['vals'][2]) if len(runs[0]['vals']) > 2 else None
-        if not (isinstance(v, tuple) and v[0] == 'call' and v[1].endswith('::new_has_run')):
+        # ... made by the Stages trait's constructor of initial flags (its one method without arguments)
+        init = {STAGES_T + '::' + m.name for im in prog.facts['impls'] if im['trait'] and im['trait']['path'] == STAGES_T
+                for m in prog.impl_methods(im) if m.kind == 'AssocFn' and not (m.d.get('inputs') or [])}
+        if not (isinstance(v, tuple) and v[0] == 'call' and (v[1].endswith('::new_has_run') or (v[1] in init and not v[2]))):
             once('run_schedule/initial-flags', runs[0]['ln'], 'run_schedule must start with fresh has_run flags (new_has_run())', fn=g)
     return r
 
